@@ -26,6 +26,39 @@ def _nested(fi, S, pred):
     return [f for q, f in S.modules[fi.module].funcs.items() if f.parent is fi and pred(f)]
 
 
+def _pairs(st: ast.Assign) -> list:
+    """(target, value) pairs of an assignment: element-wise for `a, b = e1, e2`, else the single pair"""
+    if len(st.targets) != 1:
+        return []
+    t, v = st.targets[0], st.value
+    if isinstance(t, (ast.Tuple, ast.List)) and isinstance(v, (ast.Tuple, ast.List)) and len(t.elts) == len(v.elts):
+        return list(zip(t.elts, v.elts))
+    return [(t, v)]
+
+
+def _origin(g, d, name: str, depth: int = 0):
+    """(statement, right-hand side, position) that defines `name` at definition d: position k when the statement unpacks a non-tuple value
+    (`a, b = call(...)` -> `b` is position 1 of the call); plain copies `x = y` / components `x, .. = y, ..` of locals are followed"""
+    if not isinstance(d, ast.Assign) or len(d.targets) != 1 or depth > 4:
+        return None
+    t, v = d.targets[0], d.value
+    if isinstance(t, (ast.Tuple, ast.List)) and not (isinstance(v, (ast.Tuple, ast.List)) and len(v.elts) == len(t.elts)):
+        for k, e_ in enumerate(t.elts):
+            if isinstance(e_, ast.Name) and e_.id == name:
+                return d, v, k
+        return None
+    for t_, v_ in _pairs(d):
+        if isinstance(t_, ast.Name) and t_.id == name:
+            if isinstance(v_, ast.Name):
+                defs = g.reaching_defs(d, v_.id)
+                outs = [_origin(g, d2, v_.id, depth + 1) for d2 in defs if d2 is not CFG.ENTRY]
+                if len(outs) == 1 and outs[0] is not None:
+                    return outs[0]
+                return None
+            return d, v_, None
+    return None
+
+
 def _directions(fi, rk_stmt, cx):
     """(end temperature of pass 0, of pass 1, name of the pass index) of the `for` loop around the integrator"""
     loops = [x for x in own_nodes(fi.node) if isinstance(x, ast.For) and any(y is rk_stmt for y in ast.walk(x))]
@@ -227,16 +260,22 @@ def rules(chk: Check) -> None:
                 okp = False
                 kinds.append(f"paranoid={par}: undefined on some path")
                 continue
-            v = d.value
-            if isinstance(d.targets[0], ast.Tuple) and isinstance(v, ast.Call) and eqx(v.func, "self.effectivePotential.findLocalMinimum"):
+            # the value stored in VT by d: a component of a parallel assignment, followed through plain copies of locals
+            org = _origin(gs, d, VT)
+            if org is None:
+                okp = False
+                kinds.append(n(getattr(d, "value", d))[:60])
+                continue
+            st0, v, pos = org          # defining statement, its right-hand side, position in an unpacked call result (or None)
+            if pos == 1 and isinstance(v, ast.Call) and eqx(v.func, "self.effectivePotential.findLocalMinimum"):
                 argok = len(v.args) >= 2 and eqx(v.args[0], f"Fields({ODE}.y)") and eqx(v.args[1], f"{ODE}.t")
-                first = n(d.targets[0].elts[0])
+                first = n(st0.targets[0].elts[0])
                 # ode.y must be replaced by element 0 of the same result on every path to the append
-                repl = [x for x in gs.nodes if isinstance(x, ast.Assign) and eqx(x, f"{ODE}.y = {first}[0]")]
-                follow = gs.must_pass(d, pa, lambda q: q in repl)
+                repl = [x for x in gs.nodes if isinstance(x, ast.Assign) and any(eqx(t_, f"{ODE}.y") and eqx(v_, f"{first}[0]") for t_, v_ in _pairs(x))]
+                follow = gs.must_pass(st0, pa, lambda q: q in repl)
                 kinds.append(f"paranoid={par}: re-minimised")
-                okp = okp and argok and follow and n(d.targets[0].elts[1]) == VT
-            elif has(v, f"self.effectivePotential.evaluate(Fields({ODE}.y), {ODE}.t)"):
+                okp = okp and argok and follow
+            elif pos is None and has(v, f"self.effectivePotential.evaluate(Fields({ODE}.y), {ODE}.t)"):
                 kinds.append(f"paranoid={par}: evaluated")
             else:
                 okp = False
@@ -244,8 +283,14 @@ def rules(chk: Check) -> None:
     chk.ob("R11.2", fi.where(), "the recorded potential is V at the recorded point: either findLocalMinimum(Fields(ode.y), ode.t)[1] with ode.y replaced by "
            "its element 0, or evaluate(Fields(ode.y), ode.t) (both settings of `paranoid`)", okp and nd >= 3, str(kinds), key="value-at-point")
     # ode.y is not modified between those definitions and the append other than by that replacement
-    other = [x for x in g.nodes if isinstance(x, (ast.Assign, ast.AugAssign)) and eqx(x.targets[0] if isinstance(x, ast.Assign) else x.target, f"{ODE}.y")
-             and not (isinstance(x, ast.Assign) and isinstance(x.value, ast.Subscript) and eqx(x.value.slice, "0"))]
+    other = []
+    for x in g.nodes:
+        if isinstance(x, ast.AugAssign) and eqx(x.target, f"{ODE}.y"):
+            other.append(x)
+        elif isinstance(x, ast.Assign):
+            for t_, v_ in _pairs(x):
+                if eqx(t_, f"{ODE}.y") and not (isinstance(v_, ast.Subscript) and eqx(v_.slice, "0")):
+                    other.append(x)
     chk.ob("R11.2", fi.where(), "ode.y is only ever overwritten by a re-minimised location", not other, "; ".join(n(x) for x in other), key="no-other-writes")
     # initial point
     first_step_line = steps[0].lineno
